@@ -140,6 +140,10 @@ func genNeedLimit(r *hx.Rng, infos []info) (need, limit int) {
 	if need < 1 {
 		need = 1
 	}
+	if r.Chance(4) { // negative limits are not rejected by request validation: they mean "no limit"
+		limit = -r.Range(1, 3)
+		return
+	}
 	switch r.Intn(6) {
 	case 0, 1:
 		limit = 0
@@ -200,6 +204,7 @@ func TestGen(t *testing.T) {
 	emit(strategy.Drained, 3, 0, d1, 7)
 	d2 := []info{{N: "a", Cap: math.MaxInt, Count: 1}, {N: "b", Cap: math.MaxInt, Count: 1}}
 	emit(strategy.Fill, 3, 0, d2, math.MaxInt)
+	emit(strategy.Each, 1, -1, d1, 7) // negative node limit used to panic in EACH (infos[:limit])
 	for c := 0; c < nsets; c++ {
 		infos := genInfos(r)
 		need, limit := genNeedLimit(r, infos)
